@@ -1395,6 +1395,62 @@ def correspondence(res, tier, rng):
 # failing-input search (property text only)
 # ---------------------------------------------------------------------------
 
+NEAR_OHMIC_POINTS = [
+    # exponents next to (not at) the ohmic one: closed forms in Gamma(zeta - 1) cancel catastrophically
+    (0.3, 1.0 + 2.0 ** -40, 4.0, "exponential", 0.0, 0.4),
+    (0.3, 1.0 - 2.0 ** -40, 4.0, "exponential", 0.0, 0.4),
+    (1.0, 2.0 + 2.0 ** -40, 2.0, "exponential", 0.0, 0.5),
+]
+
+
+def oracle_near_ohmic():
+    """PowerLawSD at zeta = 1 +- 2^-40 against zeta = 1 exactly (the cells are smooth in zeta: the
+    difference is ~1e-12 relative) and at 2 + 2^-40 against 2"""
+    from oqupy.bath_correlations import PowerLawSD
+    for pt in NEAR_OHMIC_POINTS:
+        alpha, zeta, wc, ct, t_over, dtw = pt
+        near, at = PowerLawSD(alpha, zeta, wc, ct, t_over * wc), PowerLawSD(alpha, round(zeta), wc, ct, t_over * wc)
+        dt = dtw / wc
+        for shape, t1, t2 in (("upper-triangle", 0.0, None), ("square", dt, None), ("square", 3 * dt, None),
+                              ("rectangle", dt, 4 * dt), ("upper-triangle", 2 * dt, None)):
+            kw = {} if t2 is None else {"time_2": t2}
+            x = complex(near.correlation_2d_integral(dt, t1, shape=shape, epsrel=1e-11, **kw))
+            y = complex(at.correlation_2d_integral(dt, t1, shape=shape, epsrel=1e-11, **kw))
+            if not (abs(x.real - y.real) <= 1e-8 * abs(y.real) and abs(x.imag - y.imag) <= 1e-8 * abs(y.imag)):
+                yield ("near-integer exponent: PowerLawSD zeta=%r vs zeta=%d, %s at time_1=%.4g"
+                       % (zeta, round(zeta), shape, t1),
+                       {"oracle": "near-ohmic", "point": pstr(pt), "zeta": repr(zeta), "shape": shape, "delta": dt,
+                        "time_1": t1, "time_2": t2, "value": repr(x), "value_at_the_integer_exponent": repr(y)})
+                break
+
+
+def _compact_corr(t):
+    """a correlation function of compact support that returns a plain 0.0 outside it"""
+    if abs(t) >= 0.8:
+        return 0.0
+    return 0.7 * (1.0 - abs(t) / 0.8) ** 2 * np.exp(-2.0j * t)
+
+
+def oracle_compact_support():
+    """CustomCorrelations whose callable is real-typed at some arguments (0.0 beyond its support,
+    also at tau = 1.0) and complex elsewhere: every cell vs direct integration of its correlation()"""
+    from oqupy.bath_correlations import CustomCorrelations
+    cc = CustomCorrelations(_compact_corr)
+    d = 0.15
+    for shape, t1, t2 in (("upper-triangle", 0.0, None), ("square", d, None), ("square", 3 * d, None),
+                          ("rectangle", d, 3 * d), ("upper-triangle", 2 * d, None)):
+        kw = {} if t2 is None else {"time_2": t2}
+        x = complex(cc.correlation_2d_integral(d, t1, shape=shape, epsrel=1e-10, **kw))
+        y, ok = direct_cell_converged(cc.correlation, shape, d, t1, t2)
+        if ok and abs(x - y) > 1e-7 * abs(y):
+            yield ("compact support: CustomCorrelations %s at time_1=%.4g vs integration of correlation()"
+                   % (shape, t1),
+                   {"oracle": "compact-support", "correlation_function": "0.7 (1-|t|/0.8)^2 exp(-2i t) for |t| < 0.8, "
+                    "else the float 0.0", "shape": shape, "delta": d, "time_1": t1, "time_2": t2,
+                    "value": repr(x), "direct_integration": repr(complex(y))})
+            break
+
+
 def search(res, rng=None, budget_points=None):
     from oqupy.bath_correlations import PowerLawSD, CustomSD
     from . import oq  # noqa: F401
@@ -1415,6 +1471,10 @@ def search(res, rng=None, budget_points=None):
     for key, bad in itertools_chain(oracle_low_T(WarningLog(), res.tier),
                                     oracle_tiny_and_cold(WarningLog(), res.tier)):
         if bad is not None and key not in seen:
+            seen.add(key)
+            res.fail(key, bad)
+    for key, bad in itertools_chain(oracle_near_ohmic(), oracle_compact_support()):
+        if key not in seen:
             seen.add(key)
             res.fail(key, bad)
     # scale covariance, memo tie
@@ -1525,6 +1585,12 @@ def replay_case(res, payload):
     """re-judge one stored failing input (corpus/C12/*.json, --replay) on the real code"""
     fi = payload.get("failing_input", payload)
     key = payload.get("key", "")
+    if fi.get("oracle") in ("near-ohmic", "compact-support"):
+        for k, bad in itertools_chain(oracle_near_ohmic(), oracle_compact_support()):
+            if k == key:
+                res.fail(k, bad)
+                return True
+        return False
     if key.startswith(("scale covariance", "T=0 closed form", "coupling covariance")):
         import itertools
         for k, bad in itertools.chain(oracle_scale(WarningLog()), oracle_coupling(WarningLog())):
